@@ -129,6 +129,15 @@ def scenarios(rnd, quick, only_inbound=False):
             p = rnd.choice(partitions(rnd, total, [len(m) for m in msgs], 3, False))
             cs.append(dict(sent=[list(m) for m in msgs], chunks=p, out=rnd.choice([0, 4])))
         scns.append(dict(id="m%d" % si, role="acceptor", buf=rnd.choice([0, 1, 10]), senders=rnd.choice([1, 3]), conns=cs))
+    # several connections waiting in the backlog when the acceptor starts accepting (every handler is created for its own connection)
+    for si in range(16 if quick else 200):
+        cs = []
+        for c in range(rnd.randint(2, 5)):
+            msgs = [frame([("35", b"D"), ("49", b"PEER%d" % c), ("56", b"SRV"), ("34", b"%d" % (c + 1)), ("58", b"conn %d-%d 10=x" % (si, c))])] + \
+                   [gen_msg(rnd) for _ in range(rnd.randint(0, 3))]
+            total = sum(len(m) for m in msgs)
+            cs.append(dict(sent=[list(m) for m in msgs], chunks=rnd.choice(partitions(rnd, total, [len(m) for m in msgs], 3, False)), out=0))
+        scns.append(dict(id="S%d" % si, role="acceptor", buf=rnd.choice([0, 1, 10]), senders=1, conns=cs, simultaneous=True))
     # a connection that dies in the middle of a message (EOF or reset after at least one complete field of it), then further
     # connections on the same acceptor: each handler still gets exactly what ITS peer sent
     for si in range(24 if quick else 300):
